@@ -7,7 +7,7 @@ props = [json.loads(l) for l in open(os.path.join(ROOT, 'properties.jsonl'))]
 # id -> (technique, level text, level note, design ref)
 CHECKS = {
  'C20': ("Errors.tla WF predicate evaluated by Errors_Trace on every error provoked from every entry point; path codec identity model-checked (Errors_MC) and all its 5461 paths replayed through json.Marshal of an error and ast.Path.UnmarshalJSON under four name alphabets",
-         "4,000 (quick) / 250,000 (thorough) errors from the lexer, both parsers (named sources), limited entry points, LoadSchema over several uniquely named files (after an early load that extends built-ins), Validate under default and random rule subsets, VariableValues with defective values and hostile map keys; coverage counted by distinct message template (about 230 in the quick tier).",
+         "4,000 (quick) / 2.5 million (thorough) errors from the lexer, both parsers (named sources), limited entry points, LoadSchema over several uniquely named files (after an early load that extends built-ins), Validate under default and random rule subsets, VariableValues with defective values and hostile map keys; coverage counted by distinct message template (about 230 in the quick tier).",
          "JSON shape is checked on json.Marshal of the *gqlerror.Error; message wording is not compared against an oracle; every error of a call whose sources are all named must carry one of those names.", "4/C20"),
 
  'C12': ("Printer.tla: the formatter is specified through its inverse, the SPECIFICATION's own parser (Lexer.tla + QueryGrammar.tla + Tree.tla); Printer_Trace requires SpecParse(format(d)) = d, the library's re-parse to agree, and format(parse(format(d))) = format(d); plus every sentence of the QueryGrammar_MC state graph formatted and re-read",
@@ -21,7 +21,7 @@ CHECKS = {
          "Data-race freedom is decided by the Go race detector on the schedules that occur; the snapshot is a reflective walk of everything reachable from *ast.Schema (including spare slice capacity).", "4/C11"),
 
  'C02': ("FragTraversal.tla (visits under the Global / OnPath memo disciplines, linearity model-checked on all 3-fragment graphs) + Total2_Trace: every LoadSchema / Validate call runs in a crash-isolated child process; hook-H2 recursion step counters per site are checked against polynomial bounds in the document size",
-         "1,100 (quick) / 60,000 (thorough) cases: LoadSchema on generated valid / faulty / hand-written / grammar-directed type-blind SDL; Validate on typed valid, fault-injected and type-blind documents; 24 adversarial document families (fragment fan-out under introspection, fields, top level, subscriptions; cycles through fields; fragments spreading each other while overlapping; exclusive-then-shared comparisons; deep aliases; wide same-name selection sets; deep equal / differing / reordered object and list arguments, deep default values) and 12 adversarial type-system families (interface chains and cycles reached from a type that sorts first, input cycles through non-null fields and defaults, deep list types, wide unions, directive cycles, extension chains, extensions of missing types) at 4 / 6 sizes. A crash, fatal stack exhaustion or 20 s silence is attributed to its input; a hard budget of 30 million steps per site turns exponential blow-up into a deterministic verdict.",
+         "1,100 (quick) / 72,000 (thorough) cases: LoadSchema on generated valid / faulty / hand-written / grammar-directed type-blind SDL; Validate on typed valid, fault-injected and type-blind documents; 24 adversarial document families (fragment fan-out under introspection, fields, top level, subscriptions; cycles through fields; fragments spreading each other while overlapping; exclusive-then-shared comparisons; deep aliases; wide same-name selection sets; deep equal / differing / reordered object and list arguments, deep default values) and 12 adversarial type-system families (interface chains and cycles reached from a type that sorts first, input cycles through non-null fields and defaults, deep list types, wide unions, directive cycles, extension chains, extensions of missing types) at 4 / 6 sizes. A crash, fatal stack exhaustion or 20 s silence is attributed to its input; a hard budget of 30 million steps per site turns exponential blow-up into a deterministic verdict.",
          "Termination / no-panic are observations of the Go runtime; time is bounded through step counters, not seconds; polynomial bounds are generous (degree 4 for the merge rule).", "4/C02"),
 
  'C09': ("Links_Trace over the typed walk (Events) of Rules.tla: every link of every node of the validated real AST, recorded with pointer identity against the schema's own definitions, must be a fact the walk implies, and every node the walk visits must carry its fact",
